@@ -250,6 +250,129 @@ func body(n int, bounded bool, custom ...func() []hostile) func() {
 	}
 }
 
+// vanishing: requests that make the server act on the hostile client's own
+// connection state (registrations, their removal, statistics, a burst of
+// calls, removal of an object it follows), sent back to back and followed at
+// once by the loss of the connection: the server tears the connection down
+// while the object's mailbox goroutine still works on the requests.
+func vanishing() []hostile {
+	return []hostile{
+		{name: "register(77)", typ: net.Call, svc: 1, obj: 1, act: 0, pay: regPayload(1, 105, 77)},
+		{name: "unregister(77)", typ: net.Call, svc: 1, obj: 1, act: 1, pay: regPayload(1, 105, 77)},
+		{name: "register(77,other-signal)", typ: net.Call, svc: 1, obj: 1, act: 0, pay: regPayload(1, 106, 77)},
+		{name: "register(second-object,80)", typ: net.Call, svc: 1, obj: childPlaceholder, act: 0, pay: nil},
+		{name: "terminate(second-object)", typ: net.Call, svc: 1, obj: childPlaceholder, act: 3},
+		{name: "enableStats(true)", typ: net.Call, svc: 1, obj: 1, act: 81, pay: []byte{1}},
+		{name: "echo(2)x3", typ: net.Call, svc: 1, obj: 1, act: 100, pay: fx.Int32(2), repeat: 2},
+		{name: "setProperty(level,7)", typ: net.Call, svc: 1, obj: 1, act: 6, pay: values(value.String("level"), value.Int(7))},
+	}
+}
+
+// vanish: the hostile client first registers two subscriptions (and waits for
+// them), then sends up to n frames of the vanishing menu in one burst and
+// drops the connection at once - no quiescence in between, so the teardown of
+// the connection races the requests (deviation-bounded schedules).
+func vanish(n int) func() {
+	return func() {
+		w := fx.Start(bus.Yes{})
+		good := w.MustConnect()
+		child, err := good.Probe(1).Spawn()
+		if err != nil {
+			vrt.Failf("harness/spawn", "%v", err)
+			return
+		}
+		childID := child.Proxy().ObjectID()
+		if _, err := good.Client.Call(nil, w.ServiceID, 1, 0, regPayload(1, 105, otherHandler)); err != nil {
+			vrt.Failf("harness/register", "%v", err)
+			return
+		}
+		h := w.RawPeer()
+		h.StartDrain()
+		if !h.Authenticate("", "") {
+			vrt.Failf("harness/auth", "raw peer could not authenticate")
+			return
+		}
+		// live subscriptions of the hostile client: tick (105) with handler
+		// 77 and the level property with handler 76
+		h.Send(net.Call, 1, 1, 0, h.NextID(), regPayload(1, 105, 77))
+		h.Send(net.Call, 1, 1, 0, h.NextID(), regPayload(1, 106, 76))
+		vrt.Quiesce()
+		abc := vanishing()
+		var seq []hostile
+		for i := 0; i < n; i++ {
+			k := vrt.ChooseFree(len(abc)+1, "frame")
+			if k == len(abc) {
+				break
+			}
+			seq = append(seq, abc[k])
+		}
+		vrt.Explore()
+		names := ""
+		childNamed := false
+		for _, f := range seq {
+			names += f.name + ";"
+			obj, pay := f.obj, f.pay
+			if obj == childPlaceholder {
+				obj = childID
+				if f.act == 3 {
+					pay = u32(childID)
+					childNamed = true
+				} else {
+					pay = regPayload(childID, 105, 80)
+				}
+			}
+			for r := 0; r <= f.repeat; r++ {
+				h.Send(f.typ, f.svc, obj, f.act, h.NextID(), pay)
+			}
+		}
+		h.Raw.Close()
+		vrt.Quiesce()
+		// the race under test is over: the probes run on the default schedule
+		vrt.Freeze()
+		okRoot, okChild, okGood := false, false, false
+		pw := vrt.GoWorker("probe-client", func() {
+			c, err := w.Connect("", "")
+			if err != nil {
+				vrt.Failf("probe-connect-failed", "a fresh client cannot connect after [%s]: %v", names, err)
+				return
+			}
+			if v, err := c.Probe(1).Echo(21); err == nil && v == probe.EchoResult(21) {
+				okRoot = true
+			}
+			if childNamed {
+				return
+			}
+			if v, err := c.Probe(childID).Echo(22); err == nil && v == probe.EchoResult(22) {
+				okChild = true
+			}
+		})
+		gw := vrt.GoWorker("good-client", func() {
+			if v, err := good.Probe(1).Echo(23); err == nil && v == probe.EchoResult(23) {
+				okGood = true
+			}
+		})
+		vrt.Quiesce()
+		set := "{" + multiset(seq) + "}"
+		switch lws := vrt.LockWaiters(); {
+		case len(lws) > 0:
+			vrt.Failf("=deadlock/"+set, "thread %s blocked on %s at quiescence after the hostile client sent [%s] and vanished; fresh client served: %v", lws[0].Thread, lws[0].Label, names, pw.Done())
+		case !pw.Done():
+			vrt.Failf("=fresh-client-not-served/"+set, "a fresh client is not served after the hostile client sent [%s] and vanished: blocked on %s", names, pw.BlockedOn())
+		case !gw.Done():
+			vrt.Failf("=established-client-not-served/"+set, "an established client is not served after [%s] and the loss of that connection: blocked on %s", names, gw.BlockedOn())
+		case !okRoot:
+			vrt.Failf("=service-object-dead/"+set, "echo on the service object fails after [%s]", names)
+		case !okChild && !childNamed:
+			vrt.Failf("=second-object-dead/"+set, "echo on the second object fails after [%s]", names)
+		case !okGood:
+			vrt.Failf("=established-client-refused/"+set, "an established client gets an error after [%s]", names)
+		case w.Root.Terminated > 0:
+			vrt.Failf("=object-terminated/"+set, "the service object was terminated by [%s]", names)
+		}
+		vrt.Observe("vanish|%s|root=%v child=%v good=%v", names, okRoot, okChild, okGood)
+	}
+}
+
 // truncations: every well-formed request of a base list with its payload cut
 // at every length (the frame itself is complete: header size = bytes sent).
 func truncations() []hostile {
@@ -388,6 +511,10 @@ func cuts() {
 func init() {
 	reg.Register(&reg.Scenario{Property: "C12", Name: "backlog-behind-busy-object", Body: fx.Backlog(12), Quick: 1, Thorough: 2,
 		Doc: "an object busy in a gated call; one connection pipelines terminate() + 12 calls (more than its mailbox holds), a second connection one more; then the gate opens"})
+	reg.Register(&reg.Scenario{Property: "C12", Name: "vanishing-client-1", Body: vanish(1), Quick: 2, Thorough: 3, MaxSteps: 60000, StepLimitFails: true,
+		Doc: "a hostile client with two live subscriptions sends one request of a menu of 8 (unregister, register, terminate of an object it follows, statistics, calls, a property write) and drops the connection at once: the teardown of the connection races the request; afterwards a fresh and an established client are served by every object"})
+	reg.Register(&reg.Scenario{Property: "C12", Name: "vanishing-client-2", Body: vanish(2), Quick: 1, Thorough: 2, MaxSteps: 60000, StepLimitFails: true,
+		Doc: "same with bursts of two requests"})
 	reg.Register(&reg.Scenario{Property: "C12", Name: "cut-frames", Body: cuts, Quick: 0, Thorough: 1,
 		Doc: "an authenticated peer sends a complete frame, then the same frame cut at every byte position, and closes or stays silent; then a fresh and an established client call every object", MustFlag: []string{"cut-in-header", "cut-in-payload"}})
 	reg.Register(&reg.Scenario{Property: "C12", Name: "truncated-payloads", Body: body(1, false, truncations), Quick: 0, Thorough: 1, MaxSteps: 60000, StepLimitFails: true,
